@@ -65,18 +65,18 @@ func (c dhcpCfg) nic() nicCfg {
 }
 
 type dOp struct {
-	K      string `json:"k"` // discover request decline release capture uncapture tick foreign
-	C      int    `json:"c,omitempty"`
-	Req    string `json:"req,omitempty"`  // address class, resolved against the ledger at run time
-	Kind   string `json:"kind,omitempty"` // request: sel-ours sel-other renew rebind reboot
-	XID    int    `json:"xid,omitempty"`  // discover: xid index; request: 0 = the xid of the client's last discover, n>0 = fresh
-	Name   int    `json:"name,omitempty"`
-	PRL    int    `json:"prl,omitempty"`
-	Bcast  bool   `json:"bcast,omitempty"`
-	Srv    string `json:"srv,omitempty"` // decline/release: ours other
-	D      int    `json:"d,omitempty"`   // tick: 0 = +1 min, 1 = +5 h
-	Spoof  bool   `json:"spoof,omitempty"`
-	FMAC   int    `json:"fmac,omitempty"` // foreign: MAC index
+	K     string `json:"k"` // discover request decline release capture uncapture tick foreign
+	C     int    `json:"c,omitempty"`
+	Req   string `json:"req,omitempty"`  // address class, resolved against the ledger at run time
+	Kind  string `json:"kind,omitempty"` // request: sel-ours sel-other renew rebind reboot
+	XID   int    `json:"xid,omitempty"`  // discover: xid index; request: 0 = the xid of the client's last discover, n>0 = fresh
+	Name  int    `json:"name,omitempty"`
+	PRL   int    `json:"prl,omitempty"`
+	Bcast bool   `json:"bcast,omitempty"`
+	Srv   string `json:"srv,omitempty"` // decline/release: ours other
+	D     int    `json:"d,omitempty"`   // tick: 0 = +1 min, 1 = +5 h
+	Spoof bool   `json:"spoof,omitempty"`
+	FMAC  int    `json:"fmac,omitempty"` // foreign: MAC index
 }
 
 func (o dOp) String() string {
@@ -125,7 +125,7 @@ type dOffer struct {
 
 type dLedger struct {
 	holder  map[netip.Addr]int // address -> identity index currently acknowledged
-	offered [dN]dOffer          // outstanding offer per identity
+	offered [dN]dOffer         // outstanding offer per identity
 	lastXID [dN][4]byte
 	capt    [dN]bool
 	// may[c] is the address the server may still regard as c's lease (C12: an ACK of it is legitimate).
@@ -542,13 +542,13 @@ func runDHCPOn(tb drv.TB, rec *drv.Rec, sub string, h dhcpHistory, or dhcpOracle
 		// ledger effects of the client's own message
 		switch op.K {
 		case "decline":
-			if op.Srv != "other" {
-				if hold, ok := led.holding(ident); ok && hold == reqIP {
-					led.drop(ident)
-				}
-				if led.may[ident] == reqIP {
-					led.may[ident] = netip.Addr{}
-				}
+			// A DECLINE is the client's own statement that it will not use the address (RFC 2131 3.1 step 5: it
+			// restarts configuration), whichever server the message names: the client no longer holds it.
+			if hold, ok := led.holding(ident); ok && hold == reqIP {
+				led.drop(ident)
+			}
+			if op.Srv != "other" && led.may[ident] == reqIP {
+				led.may[ident] = netip.Addr{}
 			}
 			if led.offered[ident].ok { // the server may or may not still honour the offer
 				led.offered[ident].ok, led.offered[ident].expired = false, true
